@@ -64,7 +64,7 @@ UNITS = [
 VERIFIED_CALLEES = ()
 LEVEL = "other"
 TECHNIQUE = "contract-based deductive verification of the validate-what-you-return call site (VCs from the real AST, ghost events) + bounded run-time contract: validate(result), parse_object(result) == result, dump-reparse-dump byte identity"
-LEVEL_TEXT = "under construction"
+LEVEL_TEXT = "Proved: _parse_common validates exactly the configuration it returns and applies links before validation; the Union arm returns the value of an accepting member (C02 unit). The fixed-point clause adapt(adapt(v,T),T) == adapt(v,T) for all type constructors lives in adapt_typehints as a whole (outside the verifier's reach): bounded only (507 types x 8 channels: validate(result), parse_object(result) == result, dump-reparse-dump byte identity)."
 LEVEL_NOTE = "under construction"
 EXPLANATION = "under construction"
 ASSUMPTIONS = []
